@@ -315,6 +315,45 @@ class Executor:
         self.solver.pop()
         return r != z3.unsat
 
+    def concretize(self, t, pc, what):
+        """The single value a bit-vector term can take under the path condition (e.g. an argument count that a preceding
+        check has pinned to the callee's parameter count); anything else is outside the shape bound."""
+        sv = z3.simplify(t)
+        if z3.is_bv_value(sv):
+            return sv.as_long()
+        self.solver.push()
+        for c in pc:
+            self.solver.add(c)
+        t0 = time.time()
+        r = self.solver.check()
+        v = None
+        if r == z3.sat:
+            v = self.solver.model().eval(t, model_completion=True)
+            self.solver.add(t != v)
+            if self.solver.check() != z3.unsat:
+                v = None
+        self.solver_seconds += time.time() - t0
+        self.queries += 2
+        self.solver.pop()
+        if v is None:
+            raise Unsupported("%s is not pinned to one value by the path condition" % what)
+        return v.as_long()
+
+    def value_branches(self, t, pc, what, limit=8):
+        """[(value, extra path constraint)] for a bit-vector term: its constant value, or — when the path condition does not
+        pin it — every feasible value up to `limit`; a feasible value beyond the limit is outside the shape bound."""
+        sv = z3.simplify(t)
+        if z3.is_bv_value(sv):
+            return [(sv.as_long(), None)]
+        out = []
+        for v in range(limit + 1):
+            c = t == v
+            if self.feasible(pc + [c]):
+                out.append((v, c))
+        if self.feasible(pc + [z3.UGT(t, z3.BitVecVal(limit, t.size()))]):
+            raise Unsupported("%s can exceed %d on this path (outside the shape bound)" % (what, limit))
+        return out
+
     def variant_index(self, adt, name):
         vs = self.enums.get(adt)
         if vs is None or name not in vs:
@@ -346,6 +385,12 @@ class Executor:
                     cands.append(b)
                 elif tm and tm.group(1) == "Into" and p0 == short(self_ty) and ret == short(tm.group(2)):
                     cands.append(b)
+            if len(cands) == 1:
+                return cands[0]
+            # any other trait method of a type of the dump (derived PartialEq / Clone ...): the impl body whose receiver is that type
+            strip = lambda t: short(t).lstrip("&").replace("mut", "")
+            cands = [b for k, b in self.bodies.items() if re.search(r"<impl at [^>]+>::%s$" % re.escape(meth), k) and len(b.params) == nargs
+                     and b.params and strip(b.params[0][1]) == strip(self_ty)]
             if len(cands) == 1:
                 return cands[0]
             return None
@@ -422,9 +467,9 @@ class Executor:
                 if ok_feasible:
                     yield from self.run_block(body, succ, frame, pc + [ok], store, depth, visits)
                 return
-            m = re.match(r"^(?:(.+?) = )?(.+?)\((.*)\) -> \[return: (bb\d+), unwind.*\];$", s)
+            m = self.split_call(s)
             if m:
-                dest, callee, args_s, ret_bb = m.group(1), m.group(2), m.group(3), m.group(4)
+                dest, callee, args_s, ret_bb = m
                 args = [self.operand(body, a, frame, store) for a in _split_top(args_s)]
                 results = list(self.call(callee, args, pc, store, depth))
                 for k, (kind, val, cpc, cstore) in enumerate(results):
@@ -444,6 +489,38 @@ class Executor:
                 yield Outcome("panic", pc, store, msg="diverging call " + m.group(2))
                 return
             raise Unsupported("terminator not understood: " + s)
+
+    @staticmethod
+    def split_call(s):
+        """`[dest = ]callee(args) -> [return: bbN, unwind ...];`  — the callee path may itself contain parentheses (`Result<(), E>`),
+        so the argument list is the parenthesis group that closes right before ` -> [`."""
+        m = re.match(r"^(.*)\) -> \[return: (bb\d+), unwind.*\];$", s)
+        if not m:
+            return None
+        head, ret_bb = m.group(1), m.group(2)
+        depth = 0
+        i = len(head) - 1
+        start = None
+        # scan backwards for the parenthesis that opens the argument list
+        depth = 1
+        while i >= 0:
+            c = head[i]
+            if c == ")":
+                depth += 1
+            elif c == "(":
+                depth -= 1
+                if depth == 0:
+                    start = i
+                    break
+            i -= 1
+        if start is None:
+            return None
+        before, args_s = head[:start], head[start + 1:]
+        dm = re.match(r"^(.+?) = (.+)$", before)
+        # an assignment's `=` comes before any `<`; a callee such as `<A as B<C = D>>::f` without destination has none at top level
+        if dm and not dm.group(1).startswith("<") and re.match(r"^[_(\*]", dm.group(1)):
+            return dm.group(1), dm.group(2), args_s, ret_bb
+        return None, before, args_s, ret_bb
 
     def do_switch(self, body, v, targets_s, frame, pc, store, depth, visits):
         targets = []
@@ -775,10 +852,11 @@ class Executor:
     def iter_items(self, it, pc, store, depth):
         """Generator of (items: list of values, pc, store): runs the iterator to exhaustion on every path."""
         if it.kind == "range":
-            lo, hi = z3.simplify(it.lo.t), z3.simplify(it.hi.t)
-            if not (z3.is_bv_value(lo) and z3.is_bv_value(hi)):
-                raise Unsupported("range with symbolic bounds")
-            yield ([BV(z3.BitVecVal(i, 64), 64, False) for i in range(lo.as_long(), hi.as_long())], pc, store)
+            lo = self.concretize(it.lo.t, pc, "range start")
+            branches = self.value_branches(it.hi.t, pc, "range end")
+            for k, (hi, c) in enumerate(branches):
+                st = store if k == len(branches) - 1 else dict(store)
+                yield ([BV(z3.BitVecVal(i, 64), 64, False) for i in range(lo, hi)], pc + ([c] if c is not None else []), st)
         elif it.kind == "vec":
             yield ([store[c] for c in it.cells], pc, store)
         elif it.kind == "refs":
@@ -790,14 +868,15 @@ class Executor:
         elif it.kind == "repeat":
             raise Unsupported("unbounded repeat consumed")
         elif it.kind == "take":
-            n = z3.simplify(it.n.t)
-            if not z3.is_bv_value(n):
-                raise Unsupported("take with symbolic count")
-            if it.inner.kind == "repeat":
-                yield ([self.world.copy_value(store, it.inner.value) for _ in range(n.as_long())], pc, store)
-            else:
-                for a, pc1, st1 in self.iter_items(it.inner, pc, store, depth):
-                    yield (a[:n.as_long()], pc1, st1)
+            branches = self.value_branches(it.n.t, pc, "take count")
+            for k, (n, c) in enumerate(branches):
+                st = store if k == len(branches) - 1 else dict(store)
+                pcn = pc + ([c] if c is not None else [])
+                if it.inner.kind == "repeat":
+                    yield ([self.world.copy_value(st, it.inner.value) for _ in range(n)], pcn, st)
+                else:
+                    for a, pc1, st1 in self.iter_items(it.inner, pcn, st, depth):
+                        yield (a[:n], pc1, st1)
         elif it.kind == "rev":
             for a, pc1, st1 in self.iter_items(it.inner, pc, store, depth):
                 yield (list(reversed(a)), pc1, st1)
@@ -996,6 +1075,46 @@ def m_int_methods(ex, callee, args, pc, store, depth):
             yield ("value", BV(qe if meth == "div_euclid" else re_, w, True), pc + okc, store)
         return
     raise Unsupported("model for %s not written" % meth)
+
+
+@MODELS.add(r"^<&(.+) as PartialEq(<.*>)?>::(eq|ne)$")
+def m_ref_eq(ex, callee, args, pc, store, depth):
+    """core's blanket impl for references: compares the referents with the referent type's own PartialEq."""
+    m = re.match(r"^<&(?:mut )?(.+) as PartialEq(?:<.*>)?>::(eq|ne)$", callee)
+    inner, meth = m.group(1), m.group(2)
+    a, b = store[args[0].cell], store[args[1].cell]
+    for kind, val, pcx, stx in ex.call("<%s as PartialEq>::eq" % inner, [a, b], pc, store, depth):
+        if kind == "value" and meth == "ne":
+            if not isinstance(val, Bool):
+                raise Unsupported("PartialEq::eq of %s returned %r" % (inner, val))
+            val = Bool(z3.Not(val.t))
+        yield (kind, val, pcx, stx)
+
+
+def lex_compare(ex, store, a, b):
+    """(less, equal) as z3 terms for two values of the same shape, compared lexicographically by field order —
+    the documented semantics of #[derive(PartialOrd)] on structs (every PartialOrd of /repo's types is derived)."""
+    a, b = deref_all(store, a), deref_all(store, b)
+    if isinstance(a, BV) and isinstance(b, BV):
+        return (a.t < b.t) if a.signed else z3.ULT(a.t, b.t), a.t == b.t
+    if isinstance(a, Bool) and isinstance(b, Bool):
+        return z3.And(z3.Not(a.t), b.t), a.t == b.t
+    if isinstance(a, Tup) and isinstance(b, Tup) and len(a.cells) == len(b.cells):
+        less, equal = z3.BoolVal(False), z3.BoolVal(True)
+        for ca, cb in zip(a.cells, b.cells):
+            l, e = lex_compare(ex, store, store[ca], store[cb])
+            less = z3.Or(less, z3.And(equal, l))
+            equal = z3.And(equal, e)
+        return less, equal
+    raise Unsupported("ordering of %r and %r" % (a, b))
+
+
+@MODELS.add(r"^<&?&?(?!i8|i16|i32|i64|isize|u8|u16|u32|u64|usize|str|bool)([\w:]+) as PartialOrd(<.*>)?>::(lt|le|gt|ge)$")
+def m_derived_ord(ex, callee, args, pc, store, depth):
+    less, equal = lex_compare(ex, store, args[0], args[1])
+    meth = callee.rsplit("::", 1)[1]
+    t = {"lt": less, "le": z3.Or(less, equal), "gt": z3.Not(z3.Or(less, equal)), "ge": z3.Not(less)}[meth]
+    yield ("value", Bool(t), pc, store)
 
 
 # ---- vectors and slices (concrete length)
